@@ -443,15 +443,16 @@ fn run_dealer_refresh<C: Suite>(case: &Case, shape: Shape, on: &dyn Fn(usize) ->
     let (shares, new_pk) = wrap(refresh::compute_refreshing_shares::<C, _>(keys.pubkeys.clone(), &remaining, &mut Tape::random(case.seed ^ 0xd4)), "compute_refreshing_shares")?;
     // boundary 0: the participant holds its old key package and the refreshing share it received
     let old_kp = cycle(keys.kps[&me].clone(), on(0), json, "old key package")?;
-    let rshare = cycle(shares[k].clone(), on(0), json, "received refreshing share")?;
+    let by_id = |id: &Id<C>| shares.iter().find(|s| s.identifier() == id).cloned().ok_or_else(|| inconclusive("no refreshing share for a remaining participant"));
+    let rshare = cycle(by_id(&me)?, on(0), json, "received refreshing share")?;
     let new_pk = cycle(new_pk, on(0), json, "received refreshed public key package")?;
     let kp = wrap(refresh::refresh_share(rshare, &old_kp), "refresh_share with restored state")?;
     out.push(("refreshed key package".into(), bytes_of(&kp)?));
     let kp = cycle(kp, on(1), json, "refreshed key package")?;
     let new_pk = cycle(new_pk, on(1), json, "refreshed public key package")?;
     let mut all = BTreeMap::new();
-    for (j, id) in remaining.iter().enumerate() {
-        all.insert(*id, wrap(refresh::refresh_share(shares[j].clone(), &keys.kps[id]), "peer refresh_share")?);
+    for id in remaining.iter() {
+        all.insert(*id, wrap(refresh::refresh_share(by_id(id)?, &keys.kps[id]), "peer refresh_share")?);
     }
     sign_tail::<C>(&mut out, kp, new_pk, &all, me, shape.t as usize, &case.msg.bytes(), case.seed ^ 0x15, on(2), json)?;
     Ok(out)
